@@ -20,7 +20,9 @@ type SolveResult struct {
 	Ms     int64
 	Model  string
 	Output string
-	Tried  []string
+	// Candidate: model of the goal's negation under the quantifier-free part of the hypotheses
+	Candidate string
+	Tried     []string
 }
 
 type solverDef struct {
